@@ -166,8 +166,12 @@ def c13_classify(c, i):
                 if lab not in seen:
                     seen.add(lab); out.append(lab)
         if st and st != "st:ok": out.append("stability=changed")
-        if "T" in c[5:]: out.append("has-timeout-event")
-        if " R " in " " + " ".join(c[5:]) + " ": out.append("has-raw-text-event")
+        try:
+            kinds = {k for k, _ in c13_events(c)}
+        except Exception:
+            kinds = set()
+        if "T" in kinds: out.append("has-timeout-event")
+        if "R" in kinds: out.append("has-raw-text-event")
         if c[3] != "0:0:-:0": out.append("pipeline-settings-nondefault")
     elif c[0] == "c13.subst":
         kinds = sorted({t for t in c if t in ("cut", "trimto", "trim", "re")})
